@@ -119,26 +119,9 @@ def check_inmemory(ctx, fb, name):
                 why = "unexpected mutation %s" % c[1][-40:]
     ctx.check(why is None and n_mut >= 2, "R08-1", inst, "validate -> delete(removals outside the written range) -> set_range(start, leaves); no removals: set_range(start, leaves)",
               why or "mutating paths found: %d" % n_mut, loc(it))
-    # the filter predicate: i < start || i >= start + len(leaves)
-    cls = [c for c in fb.closures_of(it.path)]
-    okp = False
-    got = []
-    for c in cls:
-        e2 = Engine(fb, inline=lambda i: False)
-        ps = e2.run(c)
-        rets = []
-        for p in ps:
-            if p.kind == "return":
-                rets.append((tuple((sh(a, 200), v) for a, v in p.conds()), e2.value_of(p.store, p.ret)))
-        txt = repr(rets)
-        ups = c.get("upvars") or []
-        if len(ups) == 2 and "Lt" in txt and "Ge" in txt:
-            got.append(rets)
-            # paths: (i < start) true -> true ; else value (i >= end)
-            tr = [r for r in rets if any("Lt" in a and v is True for a, v in r[0])]
-            fl = [r for r in rets if any("Lt" in a and v is False for a, v in r[0])]
-            okp = len(tr) == 1 and cint(tr[0][1]) == 1 and len(fl) == 1 and isinstance(fl[0][1], tuple) and fl[0][1][0] == "bin" and fl[0][1][1] == "Ge"
-    ctx.check(okp, "R08-1", inst + " removal filter", "resets exactly the removal indices with i < start || i >= start + len(leaves)", "filter closure is %s" % (got[:1],), loc(it))
+    # the filter predicate, decided over the finite set of orderings of (i, start, end): keep i  <=>  i < start || i >= end
+    okp, whyp = removal_filter(fb, it)
+    ctx.check(okp, "R08-1", inst + " removal filter", "resets exactly the removal indices with i < start || i >= start + len(leaves) (all orderings of i, start, end)", whyp, loc(it))
 
 
 def check_pmtree(ctx, fb):
@@ -248,6 +231,157 @@ def check_passthrough(ctx, fb, cfg):
     ctx.check(ok, "R08-5", "RLN::atomic_operation[%s]" % cfg, "override_range(index, decoded leaves, decoded indices as usize)", why, loc(it))
 
 
+def ord_eval(t, env):
+    """value of a comparison term under an assignment of integers to the terms in env; None if a construct is not understood"""
+    if t in env:
+        return env[t]
+    if not isinstance(t, tuple) or not t:
+        return None
+    if t[0] == "const":
+        return t[2]
+    if t[0] == "un" and t[1] == "Not":
+        v = ord_eval(t[2], env)
+        return None if v is None else (0 if v else 1)
+    if t[0] == "bin":
+        a, b = ord_eval(t[2], env), ord_eval(t[3], env)
+        if a is None or b is None:
+            return None
+        f = {"Lt": a < b, "Le": a <= b, "Gt": a > b, "Ge": a >= b, "Eq": a == b, "Ne": a != b, "BitOr": bool(a) or bool(b), "BitAnd": bool(a) and bool(b),
+             "Add": a + b, "Sub": a - b}.get(t[1])
+        return None if f is None else int(f)
+    if t[0] == "call" and t[1].endswith("::contains") and len(t[2]) == 2:
+        r, x = t[2]
+        xv = ord_eval(x, env)
+        if isinstance(r, tuple) and r[0] == "call" and r[1].endswith("RangeInclusive::<Idx>::new"):
+            lo, hi = ord_eval(r[2][0], env), ord_eval(r[2][1], env)
+            return None if None in (lo, hi, xv) else int(lo <= xv <= hi)
+        if isinstance(r, tuple) and r[0] == "adt" and r[1].endswith("ops::Range"):
+            lo, hi = ord_eval(r[4][0], env), ord_eval(r[4][1], env)
+            return None if None in (lo, hi, xv) else int(lo <= xv < hi)
+        if isinstance(r, tuple) and r[0] == "adt" and r[1].endswith("ops::RangeInclusive"):
+            lo, hi = ord_eval(r[4][0], env), ord_eval(r[4][1], env)
+            return None if None in (lo, hi, xv) else int(lo <= xv <= hi)
+    return None
+
+
+def removal_filter(fb, it):
+    """the closure handed to `indices.iter().filter(..)` before the deletes keeps i exactly when i < start || i >= start + len(leaves);
+    decided by evaluating the closure's paths on one representative of every ordering of (i, start, end)"""
+    eng = Engine(fb, inline=lambda i: False)
+    caps = None
+    for p in eng.run(it):
+        for e in p.trace:
+            if e[0] == "call" and e[1].endswith("Iterator::filter"):
+                cl = [a for a in e[2] if isinstance(a, tuple) and a and a[0] == "closure"]
+                if cl:
+                    caps = cl[0]
+    if caps is None:
+        return False, "no filter(closure) over the removal indices found"
+    cit = fb.need(caps[1])
+    vals = tuple(caps[2])
+    END = (("bin", "Add", P(2), ("len", P(3))), ("bin", "Add", ("len", P(3)), P(2)))
+    names = {}
+    for k, v in enumerate(vals):
+        if v == P(2):
+            names[F(P(1), str(k))] = "start"
+        elif v in END or (isinstance(v, tuple) and v[0] == "bin" and v[1] == "Add" and P(2) in v[2:] and any(isinstance(x, tuple) and x[0] in ("len", "call") for x in v[2:])):
+            names[F(P(1), str(k))] = "end"
+    if sorted(names.values()) != ["end", "start"]:
+        return False, "the filter captures %s, specification (start, start + len(leaves))" % [sh(v, 60) for v in vals]
+    e2 = Engine(fb, inline=lambda i: False)
+    paths = [p for p in e2.run(cit) if p.kind == "return"]
+    regions = [(5, 10, 20), (10, 10, 20), (15, 10, 20), (19, 10, 20), (20, 10, 20), (25, 10, 20), (5, 10, 10), (10, 10, 10), (15, 10, 10)]
+    for i, st, en in regions:
+        env = {P(2): i}
+        for t, nm in names.items():
+            env[t] = st if nm == "start" else en
+        got = []
+        for p in paths:
+            cons = True
+            for a, v in p.conds():
+                if a[0] != "b":
+                    return False, "the filter branches on %s (not a comparison of i, start, end)" % sh(a, 80)
+                x = ord_eval(a[1], env)
+                if x is None:
+                    return False, "the filter uses a construct the ordering evaluator does not know: %s" % sh(a[1], 120)
+                if bool(x) != bool(v):
+                    cons = False
+                    break
+            if cons:
+                r = ord_eval(e2.value_of(p.store, p.ret), env)
+                if r is None:
+                    return False, "the filter returns %s (not understood)" % sh(e2.value_of(p.store, p.ret), 120)
+                got.append(bool(r))
+        want = i < st or i >= en
+        if got != [want]:
+            return False, ("for i = %d, start = %d, end = start + len(leaves) = %d the filter %s the index, specification %s: a removal index %s" % (
+                i, st, en, "keeps" if got and got[0] else "drops", "keep (reset it)" if want else "drop (it is overwritten by the range write)",
+                "equal to start + len(leaves) is neither reset nor overwritten" if i == en and not (got and got[0]) else "is treated wrongly"))
+    return True, ""
+
+
+def check_nonempty_batches(ctx, fb):
+    """R08-6: pmtree's batch insertion indexes the first leaf of the batch it is given (an empty batch at position 0 panics inside the
+    dependency), so every batch the adapter hands to pmtree::set_range must be non-empty by construction"""
+    # (1) the adapter's own set_range: an emptiness test dominates the call
+    it = c15.get(fb, "pmtree", "set_range")
+    ctx.touch(it)
+    eng = Engine(fb, inline=lambda i: False)
+    ok, n = True, 0
+    for p in eng.run(it):
+        cs = [(i, e) for i, e in enumerate(p.trace) if e[0] == "call" and re.search(r"MerkleTree::<D, H>::set_range$", e[1])]
+        if not cs:
+            continue
+        n += 1
+        i, e = cs[0]
+        vals = e[2][2]
+        guard = [(j, c) for j, c in enumerate(p.trace) if c[0] == "cond" and j < i and c[1][0] == "b" and c[1][1] == ("is_empty", vals) and c[2] is False]
+        guard += [(j, c) for j, c in enumerate(p.trace) if c[0] == "cond" and j < i and c[1][0] == "v" and c[1][1] == ("len", vals) and c[2] in (("notin", (0,)),)]
+        if not guard:
+            ok = False
+    ctx.check(ok and n >= 1, "R08-6", "pmtree::set_range non-empty batch", "the call into pmtree::set_range is dominated by `!values.is_empty()`",
+              "PmTree::set_range hands the caller's values to pmtree::set_range without an emptiness test: set_range(0, []) panics inside pmtree (fill_nodes indexes leaves[0])", loc(it))
+    # (2) remove_indices: exact span first..last+1, one value per position (checked by the span rule, R08-2) => length last + 1 - first >= 1 for a sorted non-empty list
+    # (3) remove_indices_and_set_leaves: buffer length (start + len(leaves)) - first, reached only with len(leaves) >= 1 and first <= start
+    it = fb.one(r"PmTree::remove_indices_and_set_leaves$")
+    ctx.touch(it)
+    eng = Engine(fb, inline=lambda i: False)
+    lens = set()
+    for p in eng.run(it):
+        for e in p.trace:
+            if e[0] == "call" and e[1].endswith("vec::from_elem"):
+                lens.add(e[2][1])
+    first = lambda t: t in (("unwrap", ("call", "core::slice::<impl [T]>::first", (P(4),))), ("idx", P(4), mk_const("usize", 0)))
+    good = len(lens) == 1
+    if good:
+        ln = next(iter(lens))
+        good = (ln[:2] == ("bin", "Sub") and first(ln[3]) and ln[2][:2] == ("bin", "Add") and set(ln[2][2:]) == {("len", P(3)), P(2)})
+    ctx.check(good, "R08-6", "pmtree::remove_indices_and_set_leaves buffer length", "(start + len(leaves)) - indices[0]", "buffer length is %s" % [sh(x, 100) for x in lens], loc(it))
+    it = c15.get(fb, "pmtree", "override_range")
+    ctx.touch(it)
+    eng = Engine(fb, inline=lambda i: False)
+    ok, n = True, 0
+    why = ""
+    for p in eng.run(it):
+        for c in p.calls(r"PmTree::remove_indices_and_set_leaves$"):
+            n += 1
+            cm = p.conds()
+            nonempty = any(a == ("v", ("len", P(3))) and (v == ("notin", (0,)) or v == ("notin", (0, 1)) or (v[0] == "eq" and v[1] >= 1)) for a, v in cm)
+            before = any(a[0] == "b" and a[1][0] == "bin" and a[1][1] == "Gt" and a[1][3] == P(2) and isinstance(a[1][2], tuple) and a[1][2][0] == "idx" and cint(a[1][2][2]) == 0 and v is False for a, v in cm)
+            if not (nonempty and before):
+                ok, why = False, "the combined helper is reached without %s" % ("len(leaves) >= 1" if not nonempty else "indices[0] <= start")
+        for c in p.calls(r"PmTree::remove_indices$"):
+            n += 1
+            cm = p.conds()
+            if not any(a == ("v", ("len", P(4))) and v in (("notin", (0,)), ("notin", (0, 1))) for a, v in cm):
+                ok, why = False, "remove_indices is reached with a possibly empty removal list"
+            srt = c[2][1]
+            if not (isinstance(srt, tuple) and srt[0] == "upd" and "sort" in str(srt[1])):
+                ok, why = False, "remove_indices receives %s, specification the sorted removal list (the span is indices[0] .. last + 1)" % sh(srt, 80)
+    ctx.check(ok and n >= 2, "R08-6", "pmtree::override_range dispatch preconditions", "helpers reached only with a sorted non-empty removal list; the combined one only with len(leaves) >= 1 and indices[0] <= start",
+              why or "helper call sites found: %d" % n, loc(it))
+
+
 def run(ctx):
     cfgs = ["default", "optimal"] if ctx.tier == "quick" else ["default", "optimal", "full"]
     ctx.prefetch(cfgs + ["fixtures"])
@@ -255,6 +389,7 @@ def run(ctx):
     check_inmemory(ctx, fb, "optimal")
     check_inmemory(ctx, fb, "full")
     check_pmtree(ctx, fb)
+    check_nonempty_batches(ctx, fb)
     old_hook = panics.ensures_hook
     n = 0
     try:
